@@ -350,6 +350,7 @@ impl<'l, F: AsFd + std::io::Write> Async<'l, F> {
 //@ endslice
 //@ slice src/io.rs / impl AsyncWrite for Async<'_, F> / fn poll_close :: body props=C17 name=Async::poll_close
 //@ rw R21 * <<self.poll_flush(cx)>> => <<Self::poll_flush_body(slf, cx)>>
+//@ rw R21 * <<(*self).get_mut()>> => <<slf.get_mut()>>
 //@ sig
     /// S1 slice: whole body of `<Async as AsyncWrite>::poll_close`; R21: the receiver is `slf`, and the call of the trait
     /// method `poll_flush` on it is the call of that method's slice.
